@@ -166,6 +166,39 @@ thread_local! {
 	static LAST_PANIC: std::cell::RefCell<Option<Panic>> = const { std::cell::RefCell::new(None) };
 }
 
+/// A logger that formats every record and throws the text away. With the max
+/// level at Trace the arguments of log macros inside the library are evaluated
+/// (and their Display impls run); with it Off they are not - both happen.
+struct DiscardLogger;
+impl log::Log for DiscardLogger {
+	fn enabled(&self, _: &log::Metadata) -> bool {
+		true
+	}
+	fn log(&self, record: &log::Record) {
+		use std::fmt::Write;
+		let mut sink = NullWrite;
+		let _ = write!(sink, "{}", record.args());
+	}
+	fn flush(&self) {}
+}
+struct NullWrite;
+impl std::fmt::Write for NullWrite {
+	fn write_str(&mut self, _: &str) -> std::fmt::Result {
+		Ok(())
+	}
+}
+static LOGGER: DiscardLogger = DiscardLogger;
+
+pub fn install_logger() {
+	let _ = log::set_logger(&LOGGER);
+	log::set_max_level(log::LevelFilter::Off);
+}
+
+/// Logging on (Trace) for odd case indices, off for even ones.
+pub fn set_logging_for_case(idx: usize) {
+	log::set_max_level(if idx % 2 == 1 { log::LevelFilter::Trace } else { log::LevelFilter::Off });
+}
+
 pub fn install_panic_hook() {
 	std::panic::set_hook(Box::new(|info| {
 		let loc = info.location().map(|l| format!("{}:{}", l.file(), l.line())).unwrap_or_else(|| "?".into());
@@ -742,6 +775,7 @@ fn replay_dir(id: &str) -> PathBuf {
 
 pub fn worker_main(mon: &dyn Monitor, tier: Tier, seed: u64, shard: usize, nshards: usize, from: usize) {
 	install_panic_hook();
+	install_logger();
 	let dir = work_dir(mon.id());
 	let mut log = OpenOptions::new().create(true).append(true).open(dir.join(format!("shard-{}.log", shard))).expect("open shard log");
 	let progress = OpenOptions::new().create(true).write(true).open(dir.join(format!("progress-{}", shard))).expect("open progress");
@@ -753,6 +787,7 @@ pub fn worker_main(mon: &dyn Monitor, tier: Tier, seed: u64, shard: usize, nshar
 		if idx >= from {
 			ctx.cur_idx.store(idx as u64, Relaxed);
 			ctx.mark(u64::MAX);
+			set_logging_for_case(idx);
 			let _ = writeln!(log, "{}", json!({"t": "B", "i": idx}));
 			let out = match guard(|| mon.run(&ctx, idx)) {
 				Ok(o) => o,
@@ -1134,6 +1169,8 @@ pub fn replay(mon: &dyn Monitor, desc: &Value, in_child: bool) -> i32 {
 		return st.code().unwrap_or(2);
 	}
 	install_panic_hook();
+	install_logger();
+	set_logging_for_case(idx);
 	let mut ctx = Ctx::new(tier, seed);
 	ctx.only_sub = desc["sub"].as_u64();
 	let out = match guard(|| mon.run(&ctx, idx)) {
